@@ -22,6 +22,9 @@ pub struct Case {
   pub limit: usize,
   pub candidate_size: Option<usize>,
   pub inner: Option<Inner>,
+  /// (rescore query, window_size, score_mode): collapse of a rescored ranking (judged on its own, see `run`)
+  #[serde(default)]
+  pub rescore: Option<(Value, usize, String)>,
 }
 
 #[derive(Clone, Debug, Serialize, Deserialize)]
@@ -43,17 +46,100 @@ fn uses_score(sort: &[Value]) -> bool {
   sort.is_empty() || sort.iter().any(|k| k["field"] == "_score")
 }
 
+impl C18 {
+  /// Collapse of a rescored ranking (default score sort, limit covering every match so that the candidate pool is
+  /// the whole ranking): the rescored ranking R' of the same request without collapse is "sorted window, then the
+  /// untouched tail", i.e. not globally ordered; each group must still be represented by its best-ranked member
+  /// under the request sort = the member with the highest (new) score. Judged: one hit per group, every group of R'
+  /// present, no document without the field, representative = a member whose score is the group's maximum in R'
+  /// (within the score tolerance). Not judged: the order of the groups, inner hits (none requested).
+  fn run_rescored(case: &Case, built: &scoreworld::Built, reader: &searchlite_core::api::IndexReader, rq: &Value, window: usize, mode: &str, mut out: Outcome) -> Outcome {
+    out.class("collapse-of-rescored-ranking");
+    let n = case.world.docs.len();
+    let mut plain = json!({"query": case.query, "limit": n + 5, "execution": "bm25", "rescore": {"window_size": window, "query": rq, "score_mode": mode}});
+    if let Some(f) = &case.filter {
+      plain["filter"] = f.clone();
+    }
+    let r = match sut::search(reader, plain.clone()) {
+      Ok(r) => r,
+      Err(_) => {
+        out.class("request-rejected");
+        return out;
+      }
+    };
+    let group_of = |id: &str| -> Option<String> { built.live.iter().find(|(i, _, _, _)| i == id).and_then(|(_, d, _, _)| d.get("cat").and_then(|v| v.as_str()).map(|s| s.to_string())) };
+    let mut best: BTreeMap<String, f32> = BTreeMap::new();
+    let mut score_of: BTreeMap<String, f32> = BTreeMap::new();
+    for h in r.hits.iter() {
+      score_of.insert(h.doc_id.clone(), h.score);
+      if let Some(g) = group_of(&h.doc_id) {
+        let e = best.entry(g).or_insert(f32::NEG_INFINITY);
+        if h.score > *e {
+          *e = h.score;
+        }
+      }
+    }
+    let mut req = plain.clone();
+    req["collapse"] = json!({"field": "cat"});
+    let c = match sut::search(reader, req.clone()) {
+      Ok(c) => c,
+      Err(e) => {
+        out.fail("collapse-request-failed", format!("the same request succeeds without collapse: {e:#}; request {req}"));
+        return out;
+      }
+    };
+    let detail = |what: String| format!("{what}; request {req}; rescored ranking without collapse {:?}; collapsed {:?}", r.hits.iter().take(40).map(|h| (h.doc_id.clone(), h.score, group_of(&h.doc_id))).collect::<Vec<_>>(), c.hits.iter().map(|h| (h.doc_id.clone(), h.score)).collect::<Vec<_>>());
+    let mut seen: Vec<String> = Vec::new();
+    for h in c.hits.iter() {
+      let Some(g) = group_of(&h.doc_id) else {
+        out.fail("hit-without-group-field", detail(format!("hit {} has no value in the collapse field", h.doc_id)));
+        return out;
+      };
+      if seen.contains(&g) {
+        out.fail("two-hits-for-one-group", detail(format!("group {g} is represented twice ({})", h.doc_id)));
+        return out;
+      }
+      seen.push(g.clone());
+      let Some(s) = score_of.get(&h.doc_id) else {
+        out.fail("representative-is-not-best-of-group", detail(format!("hit {} is not in the ranking without collapse", h.doc_id)));
+        return out;
+      };
+      if !close(*s, h.score) {
+        out.fail("representative-is-not-best-of-group", detail(format!("hit {} carries score {} but {} without collapse", h.doc_id, h.score, s)));
+        return out;
+      }
+      let b = best.get(&g).copied().unwrap_or(f32::NEG_INFINITY);
+      if !(close(h.score, b) || h.score > b) {
+        out.fail("representative-is-not-best-of-group", detail(format!("group {g} is represented by {} (score {}) although a member scores {b} after rescoring", h.doc_id, h.score)));
+        return out;
+      }
+    }
+    if seen.len() != best.len() {
+      out.fail("wrong-number-of-groups", detail(format!("{} groups returned, the ranking holds {}", seen.len(), best.len())));
+      return out;
+    }
+    // non-trivial: the window ends inside the ranking and some group has members on both sides of it
+    if window < r.hits.len() {
+      let inside: Vec<String> = r.hits.iter().take(window).filter_map(|h| group_of(&h.doc_id)).collect();
+      if r.hits.iter().skip(window).filter_map(|h| group_of(&h.doc_id)).any(|g| inside.contains(&g)) {
+        out.nontrivial(fingerprint_json(&(&req, n)));
+      }
+    }
+    out
+  }
+}
+
 impl Property for C18 {
   type Case = Case;
   const ID: &'static str = "C18";
   fn rule() -> String {
-    "cases = tie-heavy corpus (group field `cat`: single-valued or missing, groups of 1-20 members) in 1-4 segments, query, optional filter, main sort plan, limit 1..12 (often below the number of groups), optional candidate_size, optional inner_hits {size, from, sort}; oracle derived from the same request without collapse (its first max(limit,candidate_size)+1 hits are the candidate pool): at most one hit per value, each hit is the first pool member of its group, groups in pool order truncated to limit, documents without the field never appear, total_groups = groups in the pool, inner hits = the other pool members of the group in inner-sort order windowed by from/size. Non-trivial = >=2 groups with >=2 pool members and an inner sort different from the main sort; distinct = hash of the request and corpus size".into()
+    "cases = tie-heavy corpus (group field `cat`: single-valued or missing, groups of 1-20 members) in 1-4 segments, query, optional filter, main sort plan, limit 1..12 (often below the number of groups), optional candidate_size, optional inner_hits {size, from, sort}; oracle derived from the same request without collapse (its first max(limit,candidate_size)+1 hits are the candidate pool): at most one hit per value, each hit is the first pool member of its group, groups in pool order truncated to limit, documents without the field never appear, total_groups = groups in the pool, inner hits = the other pool members of the group in inner-sort order windowed by from/size. One case in five collapses a rescored ranking instead (default score sort, covering limit): one hit per group, every group present, representative = a member with the group's highest score after rescoring (group order and inner hits not judged there). Non-trivial = >=2 groups with >=2 pool members and an inner sort different from the main sort, or a rescore window that splits a group; distinct = hash of the request and corpus size".into()
   }
   fn assumptions() -> Vec<String> {
     vec!["an inner sort using _score is only combined with a main sort that also uses _score (scores are not computed otherwise: listed C20 finding)".into()]
   }
   fn plan(tier: Tier) -> Plan {
-    Plan { workers: 16, cases_per_worker: tier.pick(400, 8000) }
+    Plan { workers: 16, cases_per_worker: tier.pick(1500, 100000) }
   }
   fn shrink_iters() -> u32 {
     800
@@ -65,8 +151,8 @@ impl Property for C18 {
     let w = scoreworld::world(WorldOpts { min_docs: 5, max_docs: 60, max_commits: 4, deletes: true, ties: true, vocab: 6 });
     let query = prop_oneof![2 => Just(json!({"type": "match_all"})), 4 => g.tree(2)];
     let inner = (proptest::option::of(0usize..4), proptest::option::of(0usize..3), scoreworld::sort_plan(2)).prop_map(|(size, from, sort)| Inner { size, from, sort });
-    (w, query, proptest::option::weighted(0.2, c08::root_filter(&schema, 1)), scoreworld::sort_plan(2), prop_oneof![3 => 1usize..12, 2 => Just(100usize)], proptest::option::weighted(0.4, select(vec![1usize, 5, 20, 100])), proptest::option::weighted(0.7, inner))
-      .prop_map(|(world, query, filter, sort, limit, candidate_size, inner)| {
+    (w, query, proptest::option::weighted(0.2, c08::root_filter(&schema, 1)), scoreworld::sort_plan(2), prop_oneof![3 => 1usize..12, 2 => Just(100usize)], proptest::option::weighted(0.4, select(vec![1usize, 5, 20, 100])), proptest::option::weighted(0.7, inner), proptest::option::weighted(0.2, (crate::props::c19::rescore_query(), 1usize..12, select(vec!["total", "multiply", "max", "min"]))))
+      .prop_map(|(world, query, filter, sort, limit, candidate_size, inner, rescore)| {
         let mut inner = inner;
         if let Some(i) = inner.as_mut() {
           if !uses_score(&sort) && uses_score(&i.sort) {
@@ -74,7 +160,7 @@ impl Property for C18 {
             i.sort = vec![json!({"field": "year", "order": "desc"})];
           }
         }
-        Case { world, query, filter, sort, limit, candidate_size, inner }
+        Case { world, query, filter, sort, limit, candidate_size, inner, rescore: rescore.map(|(q, w, m)| (q, w, m.to_string())) }
       })
       .boxed()
   }
@@ -96,6 +182,9 @@ impl Property for C18 {
       }
     };
     let n = case.world.docs.len();
+    if let Some((rq, window, mode)) = &case.rescore {
+      return Self::run_rescored(case, &built, &reader, rq, *window, mode, out);
+    }
     let mut plain = json!({"query": case.query, "limit": n + 5, "execution": "bm25", "sort": case.sort});
     if let Some(f) = &case.filter {
       plain["filter"] = f.clone();
